@@ -442,7 +442,7 @@ def _e7_zero_known(f, bb):
     return z
 
 
-def _e7_walk(prog, f, br, succ, aliases, zero, neg=(), cap=3000):
+def _e7_walk(prog, f, br, succ, aliases, zero, neg=(), cap=3000, specific_handled=False):
     """values returned along the acyclic paths that start with the edge br.bb -> succ.  Phis are resolved by the edge
     taken, loads by the last store on the path; branches that test the failed pointer, a value known to be zero, or
     the failed call's negative result are followed on the consistent side only."""
@@ -507,8 +507,8 @@ def _e7_walk(prog, f, br, succ, aliases, zero, neg=(), cap=3000):
                 x = resolve(c.ops[0], path) if c.ops[1].is_null else None
                 if x is not None and c.pred in ("eq", "ne") and (id(x) in al or id(c.ops[0]) in al):
                     nxt = [t.x["succ"][0] if c.pred == "eq" else t.x["succ"][1]]
-                elif c.ops[1].is_int and c.ops[1].sval != 0 and c.pred in ("eq", "ne"):
-                    # the failed result is compared with one particular error code: the side that singles that code out
+                elif specific_handled and c.ops[1].is_int and c.ops[1].sval != 0 and c.pred in ("eq", "ne"):
+                    # (E7 only) the failed result is compared with one particular error code: the side that singles that code out
                     # is a deliberate decision about that error (e.g. "unsupported prefix: warn and skip"), not a lost one
                     xr = resolve(c.ops[0], path)
                     if (nz and id(xr) == nz) or id(xr) in neg:
@@ -598,7 +598,7 @@ def rule_e7(chk, prog, em, tool, seen):
             inst = "%s:%s@%d" % (f.name, what, c.line)
             zero = _e7_zero_known(f, br.bb) - {id(c)}
             bad = None
-            for (v, r, _p) in _e7_walk(prog, f, br, succ, aliases, zero, neg):
+            for (v, r, _p) in _e7_walk(prog, f, br, succ, aliases, zero, neg, specific_handled=True):
                 if (v.is_const and v.is_int and v.sval == 0) or id(v) in zero:
                     bad = (v, r)
                     break
